@@ -51,7 +51,26 @@ class C12(core.Check):
             'the slice of the column axis reported under that name; a LinearModelEncoder slice is the named column through '
             'the model / weight / bias registered under its name; a fresh encoder with the same state_dict computes the same; '
             'all 630 (class, stype, strategy) entries under a key whose stype is absent from the data are constructed '
-            '(unsupported pairings must be rejected) and compared with the model\'s key-by-key validation.')
+            '(unsupported pairings must be rejected) and compared with the model\'s key-by-key validation. '
+            'Third round (labels cfg:merged-embedding:* / cfg:frame-from-transform:* / names:<stype>:sorted|unsorted / ragged:* / '
+            'alias:*): ~22% of the wise cases have text_embedded / image_embedded columns (stub embedders of widths 1-5, no '
+            'model, no file access) which the converter merges BEHIND the plain embedding columns, with the child names before / '
+            'after / between / in random order relative to the plain names and at least two different widths in the group; '
+            '~22% hand the encoder a frame produced by a transform - every stype\'s column list re-ordered (what '
+            'MutualInformationSort does to numerical columns, for all five stypes), CatToNumTransform (regression / binary / '
+            'multiclass target; generated columns appended behind the numerical ones, encoder built from transformed_stats), '
+            'MutualInformationSort itself (scikit-learn\'s scoring function replaced by a stand-in) - so that the name list of a '
+            'stype is not in the converter\'s sorted order; ~20% place EMPTY multicategorical cells (the empty list, not the '
+            'missing marker) in the first / middle / last (two) rows, in all rows but one or in all rows, with extra batches in '
+            'which the rows made of empty cells come last / first / in the middle / alone; ~25% let the caller edit the returned '
+            'name list (reverse, append, clear, overwrite, pop, sort) and / or the returned tensor (zero_, add_, fill_(nan)) in '
+            'place after every call (40% of them on a single-stype frame). Direct oracles for them: every stype group re-built '
+            'eagerly, outside StypeWiseFeatureEncoder, from [col_stats[name] for name in names] has the same statistics-derived '
+            'buffers, the same parameter shapes and - with the parameters copied - bit-identical output '
+            '(C12/stats-of-named-columns); after an in-place edit of the returned values the same call returns what it returned '
+            'before (C12/returned-value-aliases-encoder-state), and at the end the frame\'s col_names_dict / feature storage and '
+            'the encoder\'s own name table are unchanged and equal to an identically built twin that was never handed to the '
+            'encoder (C12/returned-value-aliases-frame).')
     partial_notes = (
         'IEEE rounding, torch kernels (einsum, EmbeddingBag, LayerNorm): modelled, compared numerically on every run '
         '(float64, rel 1e-9 + abs 1e-12)',
@@ -76,6 +95,14 @@ class C12(core.Check):
         'and statistics of every generated case (oracle_fitted). FittedStats needs a non-empty fitted vocabulary for '
         'MultiCategoricalEmbeddingEncoder(na_strategy=ZEROS): the generator keeps such columns non-empty and the '
         'empty-vocabulary input (on which the real encoder raises) is recorded under observed_outside_generated_domain',
+        'C12/names-sorted (the name list of a stype is sorted) is a fact about the DataFrame converter (C01), asserted only for '
+        'frames that come straight from it without merged text / image children; for merged and transformed frames the lists '
+        'are unsorted by construction and the property only ties names[j] to slice j',
+        'CatToNumTransform is only combined with numerical + categorical tables (its transformed_stats drop every other '
+        'stype) and refuses an evaluation frame one of whose categorical columns holds no fitted category at all (a ValueError '
+        'of the transform, not of the encoder): such evaluation tables are not generated. MutualInformationSort needs '
+        'scikit-learn, which is not installed: its two scoring functions are replaced by |covariance with the target| for the '
+        'duration of the constructor call; the re-ordering code of the transform is the library\'s',
     )
     assumptions = ('PyTorch follows the IEEE NaN rules made explicit in SOps.lift (NaN propagates through arithmetic, '
                    'comparisons with NaN are false, bucketize(NaN) = last bucket, nan_to_num(NaN) = 0)',)
@@ -112,6 +139,19 @@ class C12(core.Check):
         if r() < 0.15:
             # (int32 calendar values are not generated: see observed_outside_generated_domain)
             o['block_dtype'] = {s: d for s, d in (('numerical', 'f32'), ('categorical', 'i32')) if r() < 0.7}
+        # third hardening round: frames whose column lists are NOT in the converter's sorted order (children of the
+        # embedding stype merged behind the plain columns; frames produced by transforms), empty ragged cells in chosen
+        # rows, callers that edit returned values in place
+        if r() < 0.22:
+            o['children'] = True
+        if r() < 0.22:
+            o['layout'] = rng.choice(['permuted', 'permuted', 'permuted', 'cat_to_num', 'cat_to_num', 'mi_sort'])
+        if r() < 0.2:
+            o['empty'] = rng.choice(G.EMPTY_PATTERNS)
+        if r() < 0.25:
+            o['mutate'] = [rng.choice(['names:reverse', 'names:append', 'names:clear', 'names:set0', 'names:pop', 'names:sort',
+                                       'x:zero', 'x:add', 'x:nan']) for _ in range(rng.choice([1, 2, 2, 3]))]
+            o['single'] = r() < 0.4          # (one stype only: the concatenation of one list / one tensor)
         if r() < self.SCALE_SHARE.get(lvl, 0.05):
             def size(cap):
                 xs = [x for x in stress.ladder(lvl) if x <= cap]
@@ -224,7 +264,11 @@ class C12(core.Check):
             return {'construct': 'ok'}
         stypes = G.canonical_stypes(tf)
         n = case['nrows']
-        out = {'construct': 'ok', 'buffers': {}, 'batches': []}
+        out = {'construct': 'ok', 'buffers': {}, 'batches': [], 'layout': G.names_layout(tf)}
+        mutate = case.get('mutate')
+        if mutate:
+            names0 = {s.value: list(v) for s, v in tf.col_names_dict.items()}
+            feats0 = {s.value: G.snapshot(f) for s, f in tf.feat_dict.items()}
         reqs = []
         groups = []
         tol_cols = []               # per column: ('none'|'cc'|'rcc', data)
@@ -245,7 +289,9 @@ class C12(core.Check):
                 x, names = wise(tfb)
                 res = {'shape': list(x.shape), 'names': list(names), 'data': x.detach().double().tolist()}
                 if b['t'] == 'whole':
-                    whole = x.detach()
+                    whole = x.detach().clone() if mutate else x.detach()
+                if mutate:
+                    self._viol[key] = self._viol[key] or self.oracle_mutation(case, b, wise, tfb, x, names, res, mutate)
             except Exception as ex:
                 res = 'raises'
                 self._viol[key] = self._viol[key] or core.Violation(
@@ -265,9 +311,71 @@ class C12(core.Check):
         out['tol'] = [self.batch_tol(tol_cols, G.batch_rows(b, n), case['ch']) for b in case['batches']]
         self._req[key] = self.requests_from_case_only(case) + [r for r in reqs if r is not None]
         out['skipped'] = [i for i, r in enumerate(reqs[len(stypes):]) if r is None]
+        if mutate and self._viol[key] is None:
+            self._viol[key] = self.oracle_untouched(case, tf, wise, names0, feats0)
         if self._viol[key] is None:
             self._viol[key] = self.oracle_wise(case, ds, tf, wise, whole, out)
         return out
+
+    @staticmethod
+    def oracle_mutation(case, b, wise, tfb, x, names, res, ops):
+        """the returned values belong to the caller: editing the returned name list / tensor in place and calling again
+        gives what the first call gave"""
+        torch = G.T()['torch']
+        keep = x.detach().clone()
+        with torch.no_grad():
+            for op in ops:
+                if op == 'names:reverse':
+                    names.reverse()
+                elif op == 'names:append':
+                    names.append('__appended_by_caller__')
+                elif op == 'names:clear':
+                    names.clear()
+                elif op == 'names:set0' and names:
+                    names[0] = '__renamed_by_caller__'
+                elif op == 'names:pop' and names:
+                    names.pop()
+                elif op == 'names:sort':
+                    names.sort(reverse=True)
+                elif op == 'x:zero':
+                    x.zero_()
+                elif op == 'x:add':
+                    x.add_(1.5)
+                elif op == 'x:nan':
+                    x.fill_(float('nan'))
+        try:
+            x2, names2 = wise(tfb)
+        except Exception as ex:       # noqa
+            return core.Violation('C12/returned-value-aliases-encoder-state', f'batch {b}: after the caller edited the values '
+                                  f'returned by the first call in place ({ops}) the second call raised {type(ex).__name__}: '
+                                  f'{str(ex)[:150]}', case, 'the same result as the first call', 'raises')
+        if list(names2) != res['names'] or not torch.equal(torch.nan_to_num(x2.detach()), torch.nan_to_num(keep)):
+            return core.Violation('C12/returned-value-aliases-encoder-state', f'batch {b}: after the caller edited the values '
+                                  f'returned by the first call in place ({ops}) the same call returns something else',
+                                  case, {'names': res['names']}, {'names': list(names2)})
+        return None
+
+    @staticmethod
+    def oracle_untouched(case, tf, wise, names0, feats0):
+        """after all calls and all in-place edits of returned values: the TensorFrame and the encoder's own column lists
+        are what they were, and the frame equals an identically built twin nobody touched"""
+        now = {s.value: list(v) for s, v in tf.col_names_dict.items()}
+        if now != names0:
+            return core.Violation('C12/returned-value-aliases-frame', f'editing returned values in place ({case["mutate"]}) '
+                                  'changed the col_names_dict of the TensorFrame', case, names0, now)
+        own = {s.value: list(v) for s, v in wise.col_names_dict.items() if s.value in names0}
+        if own != names0:
+            return core.Violation('C12/returned-value-aliases-encoder-state', f'editing returned values in place '
+                                  f'({case["mutate"]}) changed the encoder\'s col_names_dict', case, names0, own)
+        if {s.value: G.snapshot(f) for s, f in tf.feat_dict.items()} != feats0:
+            return core.Violation('C12/returned-value-aliases-frame', f'editing returned values in place ({case["mutate"]}) '
+                                  'changed the feature tensors of the TensorFrame', case)
+        twin = G.adapt_frame(case, G.make_dataset(case).tensor_frame)
+        tw = {s.value: list(v) for s, v in twin.col_names_dict.items()}
+        if tw != now or {s.value: G.snapshot(f) for s, f in twin.feat_dict.items()} != feats0:
+            return core.Violation('C12/returned-value-aliases-frame', 'after the calls the TensorFrame differs from an '
+                                  'identically built twin that was never handed to the encoder', case, tw, now)
+        return None
 
     @staticmethod
     def group_tol(m, e, feat, ncols):
@@ -380,12 +488,57 @@ class C12(core.Check):
                 if not torch.equal(torch.nan_to_num(whole[:, off:off + len(names)].double()), torch.nan_to_num(xg.double())):
                     return core.Violation('C12/column-order', f'columns {off}..{off + len(names)} of the output are not the '
                                           f'{s.value} group\'s encoding', case, names, None)
-                if names != sorted(names):
+                if names != sorted(names) and not case.get('layout') and not any(c.get('via') for c in case['cols']):
+                    # (a fact about the converter, C01: only merged children / transforms give unsorted lists)
                     return core.Violation('C12/names-sorted', 'group names not sorted', case, sorted(names), names)
                 off += len(names)
         return (self.oracle_fitted(case, ds, tf) or self.oracle_embedding_rows(case, ds, tf, wise)
+                or self.oracle_named_stats(case, ds, tf, wise, whole)
                 or self.oracle_column_axis(case, tf, wise, whole) or self.oracle_linear_model(case, tf, wise, whole)
                 or self.oracle_history(case, ds, tf, wise, whole))
+
+    @staticmethod
+    def oracle_named_stats(case, ds, tf, wise, whole):
+        """"built from the dataset's statistics and column names": position j of a stype group is encoded with the
+        statistics of the column called names[j].  Each group is re-built EAGERLY, outside StypeWiseFeatureEncoder, from
+        [col_stats[name] for name in names]: same statistics-derived buffers, same parameter shapes and - with the
+        parameters copied over - bit-identical output"""
+        import json
+        t = G.T()
+        torch = t['torch']
+        if whole is None:
+            return None
+        off = 0
+        for s in tf.stypes:
+            names = list(tf.col_names_dict[s])
+            e, m = case['enc'][s.value], wise.encoder_dict[s.value]
+            C = len(names)
+
+            def bad(what, exp=None, act=None):
+                return core.Violation('C12/stats-of-named-columns', f'{s.value} group (columns {names}, {e["cls"]}): {what}',
+                                      case, exp, act)
+            twin = G.make_stype_encoder(e, case['ch'], lazy=False, stats_list=[ds.col_stats[nm] for nm in names], stype=s,
+                                        names=names, col_stats=ds.col_stats, stype_name=s.value)
+            if G.is_f32(e):
+                twin.float()
+            twin.eval()
+            ba, bb = G.buffers_real(m, e), G.buffers_real(twin, e)
+            if json.dumps(ba, sort_keys=True) != json.dumps(bb, sort_keys=True):
+                return bad('the buffers derived from the statistics are not those of the named columns, position by position',
+                           bb, ba)
+            pa, pb = dict(m.named_parameters()), dict(twin.named_parameters())
+            if {k: tuple(v.shape) for k, v in pa.items()} != {k: tuple(v.shape) for k, v in pb.items()}:
+                return bad('the per-column parameters do not have the shapes the named columns\' statistics give',
+                           {k: list(v.shape) for k, v in pb.items()}, {k: list(v.shape) for k, v in pa.items()})
+            with torch.no_grad():
+                for k, v in pb.items():
+                    v.copy_(pa[k])
+                y = twin(tf.feat_dict[s], names)
+            if not torch.equal(torch.nan_to_num(y.detach().double()), torch.nan_to_num(whole[:, off:off + C].double())):
+                return bad('its slice of the output is not the encoding by an encoder built directly from the named columns\' '
+                           'statistics with the same parameters')
+            off += C
+        return None
 
     @staticmethod
     def roll_column(tf, s, j):
@@ -654,6 +807,13 @@ class C12(core.Check):
         except ValueError:
             self._req[key] = [self.lazy_request(case)]
             return {'construct': 'raises'}
+        except Exception as ex:             # noqa
+            self._req[key] = [self.lazy_request(case)]
+            self._viol[key] = core.Violation(
+                'C12/lazy-assignment-raises', f'constructing the encoder raised {type(ex).__name__}: {str(ex)[:120]} instead of '
+                f'either building it or refusing the configuration with a ValueError', case, 'accepted or ValueError',
+                type(ex).__name__)
+            return {'construct': 'raises'}
         trace = [observe(m)]
         dead = False
         for ev in case['events']:
@@ -668,6 +828,13 @@ class C12(core.Check):
             except ValueError:
                 trace.append('raises')
                 dead = True
+            except Exception as ex:         # noqa  (a refusal has to be the documented ValueError)
+                trace.append('raises')
+                dead = True
+                self._viol[key] = self._viol[key] or core.Violation(
+                    'C12/lazy-assignment-raises', f'supplying the lazy attribute {ev["k"]} raised {type(ex).__name__}: '
+                    f'{str(ex)[:120]} instead of either completing the encoder or refusing the configuration with a '
+                    f'ValueError', case, 'accepted or ValueError', type(ex).__name__)
         self._req[key] = [self.lazy_request(case)]
         # lazy == eager on the real objects: same submodules, same function
         last = trace[-1]
@@ -855,7 +1022,7 @@ class C12(core.Check):
                     labs.append('values:sentinel-like-categories')
                 if c['stype'] == 'multicategorical' and any(v and v.count(',') >= 16 for v in c['values']):
                     labs.append('scale:cell-length:17+')
-            if c['stype'] == 'embedding' and len(c['values'][0]) >= 17:
+            if c['stype'] == 'embedding' and not c.get('via') and len(c['values'][0]) >= 17:
                 labs.append(f"scale:embedding-width:{bucket(len(c['values'][0]))}")
             if c['stype'] == 'numerical':
                 if any(isinstance(v, float) and v in G.F64_VALUES for v in c['values']):
@@ -874,6 +1041,7 @@ class C12(core.Check):
             labs.append('cfg:absent-stype-key:' + ('admissible' if k['ok'] else 'inadmissible'))
         for h in case.get('hist', []):
             labs.append(f'hist:{h}')
+        labs += G.family_labels(case, r)
         for st, d in (case.get('block_dtype') or {}).items():
             if st in case['enc']:
                 labs.append(f'dtype:{st}:{d}')
